@@ -411,11 +411,12 @@ PROPS["C01"] = {
              "all restart-flag subsets, descriptor, user data) x Flush placement; each stream is decoded by the Go reader AND by "
              "the Lean specification decoder and both must equal the records set; non-trivial = >= 2 writes with a top-level "
              "field left unmodified and a dictionary reference; distinct by hash of the stream. Every history is also replayed call by call on the Lean record API model (op `ap`, harness/internal/recgen/serialize.go): same top-level mask and record dump at every Write, same frame contents byte for byte; histories with a call the model does not describe are dropped whole and counted (input_distribution api-histories-unsupported, api-unsupported-<reason>)"),
-    "trusted_base": CODEC_TB + ["Stef/Api.lean: hand transcription of stefc/templates/go/{struct,oneof,array,multimap}.go.tmpl and pkg/modifiedfields.go (record state with hidden parts and marks, public calls, Write), tied by op `ap`; two branches are NOT in the templates and dead on every tied history (checked by replacing them with state-destroying ones: 0 disagreements): `unshare` checks that the copy of a shared dictionary struct compares equal to it (else: marked in full, parent told), `copy<Struct>` into a shared (frozen) dictionary struct changes nothing and tells the parent (Go: panic)"],
+    "trusted_base": CODEC_TB + ["Stef/Api.lean: hand transcription of stefc/templates/go/{struct,oneof,array,multimap}.go.tmpl and pkg/modifiedfields.go (record state with hidden parts and marks, public calls, Write), tied by op `ap`; two branches are NOT in the templates and dead on every tied history (checked by replacing them with state-destroying ones: 0 disagreements): `unshare` checks that the copy of a shared dictionary struct compares equal to it (else: marked in full, parent told), `copy<Struct>` into a shared (frozen) dictionary struct changes nothing and tells the parent (Go: panic; reached by ill-typed states only - the struct, array and multimap templates replace a shared destination first)"],
     "assumptions": ["memory aliasing (values of earlier records staying unchanged) is checked by the harness only",
-                    "record API theorems: in-place modification of a dictionary struct through a getter is outside the model; "
-                    "multimap keys / values of dictionary-struct type are modelled but not tied (the serializer drops such histories; "
-                    "Go's copy<Multimap> panics on a frozen destination value: DESIGN 0.2b, Not covered (3))"],
+                    "record API theorems: in-place modification of a dictionary struct through a getter is outside the model "
+                    "(multimap keys / values of dictionary-struct type are modelled AND tied since repo 6d8ea73 / 75ab748: SetKey / "
+                    "SetValue with objects, CopyFrom, EnsureLen over shared members; the serializer only drops arrays of non-struct "
+                    "composites)"],
     "level_text": ("Proved for all inputs (Props/C01Enc.lean, over the schema-generic encoder model Stef/SpecEnc.lean and the "
                    "specification decoder Stef/Spec.lean): encode_decode_node(_framed) - for every schema, node kind (primitive, "
                    "struct with mask and optional fields, dictionary struct, oneof, array, multimap in its three forms, recursion), "
